@@ -83,33 +83,33 @@ def hasCoords : Nat → AGeom → Bool
   | fuel + 1, .collection _ _ gs => gs.any (hasCoords fuel)
 
 /-- XYM is not representable (comes back XYZ); a geometry without coordinates comes back with
-the default layout. -/
-def backLayout (l : Layout) (nonEmpty : Bool) : Layout := if !nonEmpty then 1 else if l == 3 then 2 else l
+the default layout `dl` (geojson.DefaultLayout, XY unless the caller sets it). -/
+def backLayout (dl : Layout) (l : Layout) (nonEmpty : Bool) : Layout := if !nonEmpty then dl else if l == 3 then 2 else l
 
-def expected : Nat → AGeom → AGeom
-  | _, .point l _ c => .point (backLayout l c.isSome) 0 c
-  | _, .lineString l _ cs => .lineString (backLayout l (!cs.isEmpty)) 0 cs
-  | _, .polygon l _ r => .polygon (backLayout l (!r.flatten.isEmpty)) 0 r
-  | _, .multiPoint l _ cs => .multiPoint (backLayout l (cs.any (·.isSome))) 0 cs
-  | _, .multiLineString l _ x => .multiLineString (backLayout l (!x.flatten.isEmpty)) 0 x
-  | _, .multiPolygon l _ x => .multiPolygon (backLayout l (!x.flatten.flatten.isEmpty)) 0 x
+def expected (dl : Layout) : Nat → AGeom → AGeom
+  | _, .point l _ c => .point (backLayout dl l c.isSome) 0 c
+  | _, .lineString l _ cs => .lineString (backLayout dl l (!cs.isEmpty)) 0 cs
+  | _, .polygon l _ r => .polygon (backLayout dl l (!r.flatten.isEmpty)) 0 r
+  | _, .multiPoint l _ cs => .multiPoint (backLayout dl l (cs.any (·.isSome))) 0 cs
+  | _, .multiLineString l _ x => .multiLineString (backLayout dl l (!x.flatten.isEmpty)) 0 x
+  | _, .multiPolygon l _ x => .multiPolygon (backLayout dl l (!x.flatten.flatten.isEmpty)) 0 x
   | 0, g => g
-  | fuel + 1, .collection _ _ gs => .collection 0 0 (gs.map (expected fuel))
+  | fuel + 1, .collection _ _ gs => .collection 0 0 (gs.map (expected dl fuel))
 
 /-- Format limits under which reading back may fail: the layout is inferred from the first
 position, so a non-XY geometry whose first component is empty, or a MultiPoint with an empty
 member, need not come back. -/
-def carveOut : Nat → AGeom → Bool
+def carveOut (dl : Layout) : Nat → AGeom → Bool
   | _, .point .. => false
   | _, .lineString .. => false
-  | _, .polygon l _ r => l != 1 && (r.head?.map (·.isEmpty)).getD false && !r.flatten.isEmpty
+  | _, .polygon l _ r => l != dl && (r.head?.map (·.isEmpty)).getD false && !r.flatten.isEmpty
   | _, .multiPoint _ _ cs => cs.any (·.isNone)
-  | _, .multiLineString l _ x => l != 1 && (x.head?.map (·.isEmpty)).getD false && !x.flatten.isEmpty
+  | _, .multiLineString l _ x => l != dl && (x.head?.map (·.isEmpty)).getD false && !x.flatten.isEmpty
   | _, .multiPolygon l _ x =>
-      l != 1 && !x.flatten.flatten.isEmpty &&
+      l != dl && !x.flatten.flatten.isEmpty &&
         ((x.head?.map (·.isEmpty)).getD false || ((x.head?.bind (·.head?)).map (·.isEmpty)).getD false)
   | 0, _ => false
-  | fuel + 1, .collection _ _ gs => gs.any (carveOut fuel)
+  | fuel + 1, .collection _ _ gs => gs.any (carveOut dl fuel)
 
 def depthA : Nat → AGeom → Nat
   | fuel + 1, .collection _ _ gs => 1 + (gs.map (depthA fuel)).foldl max 0
